@@ -2,7 +2,8 @@
 C09 helper lemmas: systems whose objects are all produced by `RF24.__init__`, on chips of any variant
 in any ACTIVATE state.  The constructor unlocks the feature registers of its radio and nothing the
 driver does afterwards locks them again, so the hypothesis "FEATURE/DYNPD accessible" of `C09_enter`
-/ `C09_history` (`WorldOk`) is established by construction instead of being assumed.
+/ `C09_history_contract_partial` (`WorldOk`) / `C09_history_calls` (`WorldOkC`, via `NrfProofs/C09Calls.lean`) is
+established by construction instead of being assumed.
 -/
 import NrfProofs.C09Ble
 
